@@ -413,5 +413,6 @@ func runC05(c *gen.Ctx) error {
 	// a real server process that ignores SIGTERM must still be stopped (killed) before the batch
 	// returns its --max-servers slot
 	c.DoParallel("osserver", oscmdServerScenarios(c)[2:], 2)
+	c.DoParallel("fill", c05FillScenarios(), 4)
 	return nil
 }
